@@ -19,7 +19,18 @@ use std::num::Wrapping;
 use std::ops::{Range, RangeFrom, RangeInclusive, RangeTo, RangeToInclusive};
 use std::panic::{catch_unwind, AssertUnwindSafe};
 use std::path::{Path, PathBuf};
+use std::cmp::Ordering;
+use std::collections::hash_map::RandomState;
+use std::fmt::Alignment;
+use std::marker::PhantomPinned;
+use std::net::{IpAddr, Ipv4Addr, Ipv6Addr, Shutdown, SocketAddr, SocketAddrV4, SocketAddrV6};
+use std::num::{
+    NonZeroI128, NonZeroI16, NonZeroI32, NonZeroI64, NonZeroI8, NonZeroIsize, NonZeroU128, NonZeroU16, NonZeroU32, NonZeroU64, NonZeroU8, NonZeroUsize,
+};
+use std::ops::RangeFull;
 use std::sync::{Mutex, RwLock};
+use std::thread::ThreadId;
+use std::time::{Duration, Instant};
 
 // ---------------------------------------------------------------------------
 // Counting allocator (per thread)
@@ -143,6 +154,57 @@ leaf!(PathBuf, [PathBuf::new(), PathBuf::from("/a/b"), pathbuf_slack()], |s| s.c
 leaf!(Box<CStr>, [CString::new("xy").unwrap().into_boxed_c_str(), CString::new("").unwrap().into_boxed_c_str()], |s| s.to_bytes_with_nul().len());
 leaf!(Box<OsStr>, [OsString::from("ab").into_boxed_os_str(), OsString::new().into_boxed_os_str()], |s| s.len());
 leaf!(Box<Path>, [PathBuf::from("/x").into_boxed_path(), PathBuf::new().into_boxed_path()], |s| s.as_os_str().len());
+
+macro_rules! plain_leaf {
+    ($t:ty, $e:expr) => {
+        impl Gen for $t {
+            fn count() -> usize { 1 }
+            fn make(_i: usize) -> Self { $e }
+            fn ref_heap(&self) -> usize { 0 }
+            fn alloc_cmp() -> AllocCmp { AllocCmp::Exact }
+        }
+    };
+}
+plain_leaf!(u16, 7);
+plain_leaf!(u32, 7);
+plain_leaf!(u128, 7);
+plain_leaf!(usize, 7);
+plain_leaf!(i8, -7);
+plain_leaf!(i16, -7);
+plain_leaf!(i32, -7);
+plain_leaf!(i64, -7);
+plain_leaf!(i128, -7);
+plain_leaf!(isize, -7);
+plain_leaf!(f32, 1.5);
+plain_leaf!(f64, 1.5);
+plain_leaf!(char, 'x');
+plain_leaf!(NonZeroU8, NonZeroU8::new(1).unwrap());
+plain_leaf!(NonZeroU16, NonZeroU16::new(1).unwrap());
+plain_leaf!(NonZeroU32, NonZeroU32::new(1).unwrap());
+plain_leaf!(NonZeroU64, NonZeroU64::new(1).unwrap());
+plain_leaf!(NonZeroU128, NonZeroU128::new(1).unwrap());
+plain_leaf!(NonZeroUsize, NonZeroUsize::new(1).unwrap());
+plain_leaf!(NonZeroI8, NonZeroI8::new(1).unwrap());
+plain_leaf!(NonZeroI16, NonZeroI16::new(1).unwrap());
+plain_leaf!(NonZeroI32, NonZeroI32::new(1).unwrap());
+plain_leaf!(NonZeroI64, NonZeroI64::new(1).unwrap());
+plain_leaf!(NonZeroI128, NonZeroI128::new(1).unwrap());
+plain_leaf!(NonZeroIsize, NonZeroIsize::new(1).unwrap());
+plain_leaf!(Ordering, Ordering::Less);
+plain_leaf!(Duration, Duration::from_secs(3));
+plain_leaf!(Instant, Instant::now());
+plain_leaf!(Alignment, Alignment::Left);
+plain_leaf!(PhantomPinned, PhantomPinned);
+plain_leaf!(Shutdown, Shutdown::Both);
+plain_leaf!(RangeFull, ..);
+plain_leaf!(Ipv4Addr, Ipv4Addr::LOCALHOST);
+plain_leaf!(Ipv6Addr, Ipv6Addr::LOCALHOST);
+plain_leaf!(IpAddr, IpAddr::V4(Ipv4Addr::LOCALHOST));
+plain_leaf!(SocketAddrV4, SocketAddrV4::new(Ipv4Addr::LOCALHOST, 80));
+plain_leaf!(SocketAddrV6, SocketAddrV6::new(Ipv6Addr::LOCALHOST, 80, 0, 0));
+plain_leaf!(SocketAddr, SocketAddr::V4(SocketAddrV4::new(Ipv4Addr::LOCALHOST, 80)));
+plain_leaf!(RandomState, RandomState::new());
+plain_leaf!(ThreadId, std::thread::current().id());
 
 const VEC_SHAPES: [(usize, usize); 6] = [(0, 0), (0, 5), (1, 0), (1, 2), (3, 0), (3, 7)];
 
